@@ -121,7 +121,7 @@ class _State:
 class Paths:
     """Path summaries of the functions of a Program."""
 
-    def __init__(self, prog, inline=None, depth=4, limit=1500, path_limit=400, loops="refuse"):
+    def __init__(self, prog, inline=None, depth=4, limit=1500, path_limit=400, loops="refuse", local_effects=False):
         self.prog = prog
         self.canon = Canon(prog)
         self.canon.lam_args = False   # closures stay aggregates (with their captures): rules summarise them path by path
@@ -129,6 +129,7 @@ class Paths:
         self.depth = depth
         self.limit = limit
         self.path_limit = path_limit
+        self.local_effects = local_effects   # also record calls that receive `&mut` to a local of the function
         self.loops = loops   # "refuse": functions with loops are Unsupported; "once": every loop body is walked at most
         #                      once and a path may end at a back edge (Summ.partial, ret None) — for rules about what one
         #                      iteration does, never for whole-function claims
@@ -232,6 +233,8 @@ class Paths:
                         if not pl["p"] and isinstance(ty, dict) and "ref" in ty:
                             tgt = po._mut_ref_target(pl["l"], k, n, 0)
                             if tgt is not None and "*" not in tgt[1] and tgt[0] > fn.body["argc"]:
+                                if self.local_effects:
+                                    ext = True
                                 continue  # `&mut local`: the callee can only change a local of this function
                         if ptr_root(po.operand(a, k, n))[0] in ("param", "upvar", "unknown", "loop", "callind"):
                             ext = True
@@ -1071,6 +1074,9 @@ def _simplify(t):
             vo = variant_of(n[1][1])
             if vo is not None and vo[1] == n[1][2] and n[2] < len(n[1][1][2]):
                 return n[1][1][2][n[2]]
+        if k == "call" and len(n[3]) == 1 and n[3][0][0] == "call" and "RangeInclusive" in n[1] and n[1].split("::")[-1] in ("start", "end") \
+                and "RangeInclusive" in n[3][0][1] and n[3][0][1].split("::")[-1] == "new" and len(n[3][0][3]) == 2:
+            return n[3][0][3][0 if n[1].endswith("start") else 1]   # accessor of a range just built
         if k == "un" and n[1] == "Not" and n[2][0] == "const" and isinstance(n[2][1], bool):
             return ("const", not n[2][1])
         if k == "bin" and n[1] in ("BitAnd", "BitOr") and (n[2][0] == "const" and isinstance(n[2][1], bool) or n[3][0] == "const" and isinstance(n[3][1], bool)):
